@@ -134,19 +134,31 @@ def build_tails(case):
     names = list(dict.fromkeys(names))
     defs = {}
     def_blocks = []
+    labels_extra = set()
     for i, nm in enumerate(names):
         url, title = '/u%d' % i, (None if t.chance(128) else 'T%d' % i)
-        defs[dochtml.normalize_label(nm)] = (url, title)
         spelled = t.choice([nm, nm.upper(), nm.lower(), '  ' + nm + ' '])
-        line = '[%s]: %s' % (spelled, url) + ('' if title is None else t.choice([' "%s"', " '%s'", ' (%s)']) % title)
         quoted = t.chance(64)
+        # a Unicode space is no white space to CommonMark: before the destination it is part of it, between the
+        # destination and a title it is text after the destination, and then there is no definition at all
+        uspace = t.choice(['\u00a0', '\u3000']) if t.chance(40) else ''
+        if uspace and title is not None and t.chance(128) and not spelled.startswith(' '):
+            line = '[%s]: %s %s"%s"' % (spelled, url, uspace, title)
+            para = '<p>%s</p>\n' % _esc(line)
+            def_blocks.append(('> ' + line if quoted else line, '<blockquote>\n%s</blockquote>\n' % para if quoted else para))
+            labels_extra.add('unicode-space-no-definition')
+            continue
+        if uspace:
+            url = uspace + url
+            labels_extra.add('unicode-space-in-destination')
+        defs[dochtml.normalize_label(nm)] = (url, title)
+        line = '[%s]:%s%s' % (spelled, '' if uspace and t.chance(128) else ' ', url) + ('' if title is None else t.choice([' "%s"', " '%s'", ' (%s)']) % title)
         def_blocks.append(('> ' + line if quoted else line, '<blockquote>\n</blockquote>\n' if quoted else ''))
-    uses, labels = [], set()
+    uses, labels = [], labels_extra
     for _ in range(1 + t.below(4)):
         defined = not t.chance(50)
         nm = t.choice(names) if defined else t.choice(['nope', 'foo bar baz', 'u0'])
-        if not defined and dochtml.normalize_label(nm) in defs:
-            defined = True
+        defined = dochtml.normalize_label(nm) in defs
         spelled = t.choice([nm, nm.upper()]) if defined else nm
         image = t.chance(50)
         form = t.weighted([(4, 'shortcut'), (1, 'collapsed'), (1, 'full')])
@@ -175,6 +187,7 @@ def build_tails(case):
             html_ = '<p>%s%s</p>\n' % (_esc(lead), _esc(src + tail))
         else:
             ttl = '' if title is None else ' title="%s"' % title
+            url = url.replace('\u00a0', '%C2%A0').replace('\u3000', '%E3%80%80')
             el = ('<img src="%s" alt="%s"%s />' % (url, shown, ttl)) if image else ('<a href="%s"%s>%s</a>' % (url, ttl, shown))
             html_ = '<p>%s%s%s</p>\n' % (_esc(lead), el, tail_html)
         uses.append((lead + src + tail, html_))
